@@ -53,6 +53,11 @@ fn main() {
             let (cells, unreachable) = conn::c16::gen_matrix(&mut lines, &mut st);
             stats_json = format!("{{\"cells\":{},\"unreachable_cells_skipped\":{},\"detail\":{}}}", cells, unreachable, st.json());
         }
+        "conn-recv-matrix" => {
+            let mut st = conn::c16::CaseStats::new();
+            let cells = conn::c16::gen_recv_matrix(&mut lines, &mut st);
+            stats_json = format!("{{\"cells\":{},\"detail\":{}}}", cells, st.json());
+        }
         "tables" => {
             let dir = arg_val(&args, "--dir").unwrap_or_else(|| "/verif/coq/theories/Generated".to_string());
             tables::write_sendable_v(&format!("{}/ObservedSendable.v", dir));
